@@ -175,9 +175,11 @@ theorem discardOne_sameFrame (g : Nat) (d : Dev) : SameFrame d (discardOne g d).
 theorem discardOne_info (g : Nat) (d : Dev) : (discardOne g d).1.info = d.info :=
   (discardOne_sameFrame g d).1
 
-/-- the only `Err` a `discardOne` can return is the one of `free_clusters` -/
-theorem discardOne_err_other {g : Nat} {d d' : Dev} {e : Err}
-    (h : discardOne g d = (d', .err e)) : e = .other := by
+/-- the only `Err`s a `discardOne` can return are the ones of `free_clusters`.
+    CHANGED (was `discardOne_err_other : e = .other`): `free_clusters` on a refcount
+    that is already 0 now returns `Err invalid` (it used to panic). -/
+theorem discardOne_err_cases {g : Nat} {d d' : Dev} {e : Err}
+    (h : discardOne g d = (d', .err e)) : e = .other ∨ e = .invalid := by
   by_cases hn : L1.isZero (d.l1Entry g) = true ∨ L2.isCompressed (d.l2Entry g) = true ∨
       L2.allocation d.info.cb (d.l2Entry g) = none
   · rw [discardOne_noop g d hn] at h; cases h
@@ -196,7 +198,7 @@ theorem discardOne_err_other {g : Nat} {d d' : Dev} {e : Err}
         · cases h
         · rename_i d2 x hfc
           simp only [Prod.mk.injEq, Outcome.err.injEq] at h
-          rw [← h.2]; exact freeClusters_err_other hfc
+          rw [← h.2]; exact freeClusters_err hfc
         · cases h
 
 /-- a successful `discardOne` that clears the mapping: the release succeeded and
@@ -366,8 +368,9 @@ theorem discardAll_sameFrame (gs : List Nat) (d : Dev) : SameFrame d (discardAll
     | err e => exact h1
     | panic p => exact h1
 
-theorem discardAll_err_other {gs : List Nat} {d d' : Dev} {e : Err}
-    (h : discardAll gs d = (d', .err e)) : e = .other := by
+/-- CHANGED (was `discardAll_err_other : e = .other`), see `discardOne_err_cases` -/
+theorem discardAll_err_cases {gs : List Nat} {d d' : Dev} {e : Err}
+    (h : discardAll gs d = (d', .err e)) : e = .other ∨ e = .invalid := by
   induction gs generalizing d with
   | nil => cases h
   | cons g gs ih =>
@@ -376,7 +379,7 @@ theorem discardAll_err_other {gs : List Nat} {d d' : Dev} {e : Err}
     · exact ih h
     · rename_i d1 x hx
       simp only [Prod.mk.injEq, Outcome.err.injEq] at h
-      rw [← h.2]; exact discardOne_err_other hx
+      rw [← h.2]; exact discardOne_err_cases hx
     · cases h
 
 /-- an invariant under which every `discardOne` succeeds makes the whole list succeed -/
